@@ -1,9 +1,11 @@
 (* C11 — routing table.  Property theorems only; proofs in TableProofs.v and TableSorted.v.
    Proved: the removal, cleanup and added/not-added clauses for every table content; sortedness
    under every operation sequence; exact best-first lookups on every reachable table.
-   Still only validated (evaluated on every step of every real operation sequence through
-   Table.table_inv_b): at most three non-peer routes per destination and the per-prefix bounds. *)
-From Verif Require Import Prelude SwitchLabel Table TableProofs TableSorted.
+   TableBounds.v: at most three non-peer and one direct-peer route per destination in every
+   reachable table, and direct-peer routes disappear only through a removal naming them.
+   Still only validated (evaluated on every step of every real operation sequence): the
+   per-routing-prefix bounds 3*(2*limit+1) and "within the limit after a cleanup". *)
+From Verif Require Import Prelude SwitchLabel Table TableProofs TableSorted TableBounds.
 
 (* 'added' means the route is now present ... *)
 Theorem C11_added_present : forall cfg now t e0 t',
@@ -88,3 +90,39 @@ Theorem C11_not_added_has_route_or_full : forall cfg now t e0 t',
   (forall x, In x t -> e_dst x <> e_dst e0) /\ e_source e0 = src_gossip.
 Proof. exact not_added_has_route_or_full. Qed.
 Print Assumptions C11_not_added_has_route_or_full.
+
+(* ---------- per-destination bounds and direct-peer routes (TableBounds.v) ----------
+   Operations the system can issue: a direct-peer route has a path of at most two hops (AddLink:
+   none; announcement without hop records: [self; peer]), every other route at least three
+   (an announcement with k >= 1 hop records gives k + 2); paths of at most 255 hops. *)
+Theorem C11_reachable_bounds : forall cfg self ops, Forall op_ok ops ->
+  forall d, (count_dst_nonpeer (fold_left (tstep cfg self) ops []) d <= 3)%nat /\
+            (count_dst_peer (fold_left (tstep cfg self) ops []) d <= 1)%nat.
+Proof. exact reachable_bounds. Qed.
+Print Assumptions C11_reachable_bounds.
+
+(* The whole invariant (sorted, hop counts consistent, system-producible shapes, bounds) holds in
+   every reachable table ... *)
+Theorem C11_reachable_inv : forall cfg self ops t, tinv t -> Forall op_ok ops -> tinv (fold_left (tstep cfg self) ops t).
+Proof. exact history_inv. Qed.
+Print Assumptions C11_reachable_inv.
+
+(* ... and on such a table a step removes the direct-peer route to p only if it is a next-hop
+   removal naming that route's next hop, or a disconnect removal; additions (including a better
+   route replacing the third one, and re-announcements replacing an equal route) and cleanups never
+   evict it. *)
+Theorem C11_peers_persist : forall cfg self t o p,
+  tinv t -> op_ok o -> has_peer t p ->
+  has_peer (tstep cfg self t o) p \/
+  (exists ip, o = TRemoveNextHop ip /\ exists x, In x t /\ e_source x = src_peer /\ e_dst x = p /\ e_nexthop x = ip) \/
+  (exists r disc, o = TRemoveDisconnected r disc).
+Proof. exact peers_persist. Qed.
+Print Assumptions C11_peers_persist.
+
+Theorem C11_peers_persist_disconnect : forall t router p,
+  has_peer t p ->
+  has_peer (remove_disconnected t router []) p \/
+  exists x, In x t /\ e_source x = src_peer /\ e_dst x = p /\
+            (p = router \/ e_nexthop x = router \/ In router (map h_router (e_path x))).
+Proof. exact peers_persist_disconnect. Qed.
+Print Assumptions C11_peers_persist_disconnect.
